@@ -32,7 +32,8 @@ FIRST = {
     "C08-11": "missed", "C09-12": "missed", "C11-11": "missed", "C12-11": "missed", "C12-12": "missed", "C14-12": "missed",
     "C12-3": "caught through two random histories at first, missed by a later version of the generators (found by the final ledger pass)",
     "C13-12": "caught with VERIF_SEED=1 through two random cases only, missed with VERIF_SEED=7 (found by the second ledger pass)",
-    "C16-12": "missed", "C18-11": "missed", "C20-11": "missed by C20 (same edit as C11-5; caught by C19 and C11)",
+    "C16-12": "missed",
+    "C05-13": "missed", "C11-13": "missed", "C14-13": "missed", "C20-13": "missed", "C06-13": "no-failing-input-found", "C18-11": "missed", "C20-11": "missed by C20 (same edit as C11-5; caught by C19 and C11)",
 }
 ALSO = {"C03-1": "C08", "C13-2": "C11", "C01-6": "C08", "C16-7": "C18", "C03-8": "C01", "C10-9": "C19", "C03-11": "C08", "C20-11": "C19"}
 
